@@ -387,7 +387,10 @@ def bytes_scenario(rng, size='quick', **over):
             ln = rng.choice([200_000, 300_000])
             big_budget -= 1
         k = rng.choice(keys)
-        lines += [f'w {k} {rng.choice(TS_POOL)} {m} {ln} {seed % 250 + 1}', 'states']
+        sd = seed % 250 + 1
+        if ln >= 8 and rng.random() < 0.2:
+            sd = rng.randrange(240, 250)       # payloads whose CRC-32C is 0 (both generators force the last 4 bytes)
+        lines += [f'w {k} {rng.choice(TS_POOL)} {m} {ln} {sd}', 'states']
         seed += 1
         if rng.random() < 0.2:
             lines += [f'd {k} {rng.choice(TS_POOL)} {rng.choice(["-", "m:01"])} {rng.choice([0, 1])}', 'states']
@@ -574,7 +577,7 @@ def nat_key(klen, n):
 def index_scenario(rng, size='quick', **over):
     """C09: header multisets of systematic shapes written into one blob, dumped to a B+tree index file, queried
     through the file for every present key and for absent keys below / between / above, loaded back"""
-    klen = rng.choice([1, 4, 8, 33, 128, 128, 503, 1000, 1000]) if size != 'quick' else rng.choice([1, 4, 33, 128, 503, 1000])
+    klen = rng.choice([1, 4, 7, 8, 33, 128, 128, 503, 1000, 1000]) if size != 'quick' else rng.choice([1, 4, 7, 33, 128, 503, 1000])
     c, line = cfg_line(rng, key=klen, dup=1, rt='mt', **over)
     rhs = 57 + klen
     per_block = 4096 // rhs
